@@ -1,11 +1,1891 @@
-//! C17 — stub (being built).
-use crate::fw::Report;
-use serde_json::Value as J;
+//! C17 — union-find: same class iff connected, representative is the minimum id
+//! (sequential `egglog_union_find::UnionFind` and `egglog_union_find::concurrent::UnionFind`).
+//!
+//! Stages
+//! * `seq-exhaustive`: bounded-exhaustive enumeration of EVERY sequence of public
+//!   operations of length <= L over <= N ids, for the sequential structure
+//!   (union / find / find_naive / reserve / reset) and for the concurrent structure
+//!   used from one thread (union / find / same_set / reset, several initial
+//!   capacities so that the resize path is taken), against a trivial partition
+//!   model (`Part`: a vector of min-id labels). The enumeration is a DFS that shares
+//!   prefixes (`Clone` / `deep_copy` of the structure), cut into *batches*
+//!   (a 0- or 2-op prefix + "all extensions up to k more ops") that are executed by
+//!   single-threaded child processes, one shard of the batch list each (hang/crash
+//!   isolation; processes rather than threads because constructing and dropping the
+//!   concurrent structure goes through process-global arc-swap bookkeeping that
+//!   contends badly between threads). One recorded evaluation = one batch; the number
+//!   of sequences is in the counters and in the `seq_exhaustive` evidence key. A
+//!   failing sequence is minimised and re-run on its own through `run_one`, so the
+//!   replay file holds exactly that sequence.
+//! * `seq-random`: proptest-driven random sequences (<= 2000 ops, <= 64 ids) against
+//!   the same model with the full oracle after every operation.
+//! * `concurrent`: seeded multi-thread scenarios for the concurrent structure
+//!   (2..16 threads, fixed op lists, id space up to 8x the initial capacity, barrier +
+//!   spin-aligned start, scenario-decided yields/spins; generator shapes: uniform ids,
+//!   growing id bound (resize after resize), descending union partners and a
+//!   "displacement" template in which one thread keeps querying two joined ids while
+//!   the others displace the root of their class again and again). Every scenario is
+//!   repeated several times in a child process (one process per scenario: the watchdog
+//!   of `run_child` turns a deadlock into `Quiescent`). Oracles: final partition =
+//!   closure of all unions with min-id representatives (plus deep_copy / reset after
+//!   the join); sound necessary conditions of linearizability on the stamped history;
+//!   complete Wing–Gong search for histories of <= 16 operations.
+//!   A failure depends on the OS schedule, so it is remembered per scenario (`MEMO`)
+//!   and byte-level shrinking is skipped (see `ConcStage::check`); the structural
+//!   `simplify` pass re-runs a bounded number of smaller scenarios with more repetitions.
+//!   The violation detail contains the recorded history, which is checkable on its own.
+//!
+//! Deviations from the plan forced by the real API (all deliberate):
+//! * the sequential structure has no `same_set`; the concurrent one has no
+//!   `find_naive`/`reserve` (ids are reserved implicitly by every operation). Each
+//!   structure is driven with the operations it really has.
+//! * the concurrent structure cannot be observed without path compression, so the
+//!   "observe everything" oracle runs on a `deep_copy` (which is itself documented
+//!   to be an independent copy).
+//! * `concurrent::UnionFind::union` is documented to return (new parent, new child).
+//!   Under concurrency the returned *parent* can already have been displaced by a
+//!   concurrent link when the CAS happens, so only `child` is required to be exact
+//!   (it is the root the successful CAS was applied to); the parent only has to be a
+//!   smaller member of the other argument's class that was a root during the call.
 
-pub fn run(_rep: &Report) {}
-pub fn replay(_rep: &Report, _stage: &str, _j: &J) -> i32 {
-    2
+use crate::child::{run_child, ChildJob, ChildResult};
+use crate::choice::{fnv_str, Src};
+use crate::fw::{self, Outcome, Report, Stage, Tier, Violation};
+use egglog_numeric_id::NumericId;
+use egglog_union_find::concurrent::UnionFind as ConcUf;
+use egglog_union_find::UnionFind as SeqUf;
+use serde::{Deserialize, Serialize};
+use serde_json::{json, Value as J};
+use std::collections::BTreeMap;
+use std::sync::atomic::{AtomicU64, AtomicUsize, Ordering};
+use std::sync::{Barrier, Condvar, Mutex};
+use std::time::Duration;
+
+use egglog_numeric_id::define_id;
+define_id!(pub Id, u32, "id type for the union-finds under test (the engine's Value is a u32 newtype as well)");
+
+fn id(x: u32) -> Id {
+    Id::new(x)
 }
-pub fn child(_kind: &str, _payload: &J) -> Option<J> {
-    None
+
+// ---------------------------------------------------------------------------
+// reference models
+// ---------------------------------------------------------------------------
+
+/// The trivial partition model: `label[x]` = smallest id of x's class.
+#[derive(Clone)]
+struct Part {
+    label: Vec<u32>,
+}
+
+impl Part {
+    fn new(n: usize) -> Self {
+        Part { label: (0..n as u32).collect() }
+    }
+    fn root(&self, x: u32) -> u32 {
+        self.label[x as usize]
+    }
+    /// (new root, displaced root, merged?) — (root, root, false) when already together.
+    fn union(&mut self, a: u32, b: u32) -> (u32, u32, bool) {
+        let (ra, rb) = (self.root(a), self.root(b));
+        if ra == rb {
+            return (ra, ra, false);
+        }
+        let (p, c) = (ra.min(rb), ra.max(rb));
+        for l in self.label.iter_mut() {
+            if *l == c {
+                *l = p;
+            }
+        }
+        (p, c, true)
+    }
+    fn reset(&mut self) {
+        for (i, l) in self.label.iter_mut().enumerate() {
+            *l = i as u32;
+        }
+    }
+}
+
+/// Independent disjoint-set forest for the history checker (larger root is linked
+/// under the smaller one, so `find` is the minimum id of the class).
+struct Dsu {
+    p: Vec<u32>,
+}
+
+impl Dsu {
+    fn new(n: usize) -> Self {
+        Dsu { p: (0..n as u32).collect() }
+    }
+    fn find(&mut self, mut x: u32) -> u32 {
+        while self.p[x as usize] != x {
+            let g = self.p[self.p[x as usize] as usize];
+            self.p[x as usize] = g;
+            x = g;
+        }
+        x
+    }
+    fn union(&mut self, a: u32, b: u32) {
+        let (ra, rb) = (self.find(a), self.find(b));
+        if ra != rb {
+            self.p[ra.max(rb) as usize] = ra.min(rb);
+        }
+    }
+    fn same(&mut self, a: u32, b: u32) -> bool {
+        self.find(a) == self.find(b)
+    }
+}
+
+// ---------------------------------------------------------------------------
+// sequential use (stages seq-exhaustive, seq-random)
+// ---------------------------------------------------------------------------
+
+#[derive(Clone, Copy, Serialize, Deserialize, PartialEq, Eq, Debug)]
+pub enum Target {
+    /// `egglog_union_find::UnionFind`
+    Seq,
+    /// `egglog_union_find::concurrent::UnionFind` driven from one thread
+    Conc,
+}
+
+impl Target {
+    fn tag(self) -> &'static str {
+        match self {
+            Target::Seq => "seq",
+            Target::Conc => "conc",
+        }
+    }
+}
+
+#[derive(Clone, Copy, Serialize, Deserialize, PartialEq, Eq, Debug)]
+pub enum Op {
+    Union(u32, u32),
+    Find(u32),
+    /// sequential only (the concurrent structure has none: treated as `find`)
+    FindNaive(u32),
+    /// concurrent only (sequential: compared through find_naive)
+    SameSet(u32, u32),
+    /// sequential only (concurrent: ids are reserved by every access; treated as `find`)
+    Reserve(u32),
+    Reset,
+}
+
+impl Op {
+    fn show(&self) -> String {
+        match self {
+            Op::Union(a, b) => format!("union({a},{b})"),
+            Op::Find(a) => format!("find({a})"),
+            Op::FindNaive(a) => format!("find_naive({a})"),
+            Op::SameSet(a, b) => format!("same_set({a},{b})"),
+            Op::Reserve(a) => format!("reserve({a})"),
+            Op::Reset => "reset()".to_string(),
+        }
+    }
+    fn kind(&self) -> &'static str {
+        match self {
+            Op::Union(..) => "union",
+            Op::Find(..) => "find",
+            Op::FindNaive(..) => "find_naive",
+            Op::SameSet(..) => "same_set",
+            Op::Reserve(..) => "reserve",
+            Op::Reset => "reset",
+        }
+    }
+    fn max_id(&self) -> u32 {
+        match *self {
+            Op::Union(a, b) | Op::SameSet(a, b) => a.max(b),
+            Op::Find(a) | Op::FindNaive(a) | Op::Reserve(a) => a,
+            Op::Reset => 0,
+        }
+    }
+    fn is_query(&self) -> bool {
+        matches!(self, Op::Find(..) | Op::FindNaive(..) | Op::SameSet(..))
+    }
+}
+
+fn show_ops(ops: &[Op]) -> String {
+    ops.iter().map(|o| o.show()).collect::<Vec<_>>().join("; ")
+}
+
+/// A sequence of operations; with `extend > 0` it stands for the whole batch
+/// "`ops` followed by every sequence of at most `extend` further operations of the
+/// alphabet over ids < n" (used by the exhaustive stage).
+#[derive(Clone, Serialize, Deserialize)]
+pub struct SeqCase {
+    pub target: Target,
+    /// ids used by operations are < n (id n is observed as an untouched witness)
+    pub n: u32,
+    /// initial capacity of the concurrent structure (ignored for Seq)
+    pub cap: u32,
+    pub ops: Vec<Op>,
+    #[serde(default)]
+    pub extend: u32,
+}
+
+enum Sut {
+    Seq(SeqUf<Id>),
+    Conc(ConcUf<Id>),
+}
+
+impl Sut {
+    fn new(t: Target, cap: u32) -> Sut {
+        match t {
+            Target::Seq => Sut::Seq(SeqUf::default()),
+            Target::Conc => Sut::Conc(ConcUf::with_capacity(cap as usize)),
+        }
+    }
+    fn fork(&self) -> Sut {
+        match self {
+            Sut::Seq(u) => Sut::Seq(u.clone()),
+            Sut::Conc(u) => Sut::Conc(u.deep_copy()),
+        }
+    }
+    fn tag(&self) -> &'static str {
+        match self {
+            Sut::Seq(_) => "seq",
+            Sut::Conc(_) => "conc",
+        }
+    }
+}
+
+fn same_partition(a: &[u32], b: &[u32]) -> bool {
+    // same equivalence relation <=> the map a[i] -> b[i] is a bijection between labels
+    let mut ab: BTreeMap<u32, u32> = BTreeMap::new();
+    let mut ba: BTreeMap<u32, u32> = BTreeMap::new();
+    for (x, y) in a.iter().zip(b.iter()) {
+        if *ab.entry(*x).or_insert(*y) != *y || *ba.entry(*y).or_insert(*x) != *x {
+            return false;
+        }
+    }
+    true
+}
+
+fn partition_violation(tag: &str, after: &str, what: &str, reps: &[u32], m: &Part) -> Violation {
+    let mutating = matches!(after, "union" | "reset" | "init");
+    let kind = if same_partition(reps, &m.label) { "representative-not-minimum" } else { "partition-differs" };
+    let sig = if mutating { format!("{tag}-{kind}-after-{after}") } else { format!("{tag}-{after}-changed-state") };
+    Violation::new(
+        sig,
+        format!(
+            "after `{after}`, {what}: representatives by id = {reps:?}, but the closure of the unions performed gives (min id of each class) {:?}",
+            m.label
+        ),
+    )
+}
+
+/// Observe everything without perturbing the structure under test.
+fn observe(sut: &Sut, m: &Part, n: u32, after: &str) -> Result<(), Violation> {
+    let tag = sut.tag();
+    match sut {
+        Sut::Seq(u) => {
+            let reps: Vec<u32> = (0..=n).map(|x| u.find_naive(id(x)).rep()).collect();
+            if reps != m.label {
+                return Err(partition_violation(tag, after, "find_naive of every id", &reps, m));
+            }
+            let mut f = u.clone();
+            // largest id first: parents are smaller ids, so the largest ids sit deepest and are looked up on the
+            // still uncompressed clone
+            for x in (0..=n).rev() {
+                let r = f.find(id(x)).rep();
+                if r != m.root(x) {
+                    return Err(Violation::new(
+                        "seq-find-disagrees-with-find-naive",
+                        format!("after `{after}`: find({x}) = {r} but find_naive({x}) = {} = min id of the class (find was called for the ids above {x} before, on a clone)", m.root(x)),
+                    ));
+                }
+            }
+            let reps2: Vec<u32> = (0..=n).map(|x| f.find_naive(id(x)).rep()).collect();
+            if reps2 != m.label {
+                return Err(Violation::new(
+                    "seq-path-compression-changed-partition",
+                    format!("after `{after}` and then find(x) for every x: find_naive by id = {reps2:?}, expected {:?}", m.label),
+                ));
+            }
+        }
+        Sut::Conc(u) => {
+            // one deep copy (construction and destruction of the concurrent structure are expensive):
+            // find of every id on the raw state, then same_set queries, then find again.
+            // same_set on raw (uncompressed) states is covered by the SameSet operations of the sequence itself.
+            let f = u.deep_copy();
+            // largest (deepest) id first, on the still uncompressed copy
+            let mut reps: Vec<u32> = (0..=n).rev().map(|x| f.find(id(x)).rep()).collect();
+            reps.reverse();
+            if reps != m.label {
+                return Err(partition_violation(tag, after, "find of every id, largest first (on a deep copy)", &reps, m));
+            }
+            let pairs: Vec<(u32, u32)> = if n <= 5 {
+                (0..=n).flat_map(|a| (0..=n).map(move |b| (a, b))).collect()
+            } else {
+                (0..=n).flat_map(|a| [(a, (a * 7 + 3) % (n + 1)), (a, m.root(a)), (m.root(a), a), ((a + 1) % (n + 1), a)]).collect()
+            };
+            for (a, b) in pairs {
+                let got = f.same_set(id(a), id(b));
+                let want = m.root(a) == m.root(b);
+                if got != want {
+                    return Err(Violation::new(
+                        format!("conc-same-set-wrong-{got}"),
+                        format!("after `{after}`: same_set({a},{b}) = {got}, but connected by the unions performed = {want} (classes by min id {:?})", m.label),
+                    ));
+                }
+            }
+            let reps2: Vec<u32> = (0..=n).map(|x| f.find(id(x)).rep()).collect();
+            if reps2 != m.label {
+                return Err(Violation::new(
+                    "conc-path-compression-changed-partition",
+                    format!("after `{after}`, find(x) for every x and same_set queries: second round of find by id = {reps2:?}, expected {:?}", m.label),
+                ));
+            }
+        }
+    }
+    Ok(())
+}
+
+struct StepInfo {
+    merged: bool,
+}
+
+/// Apply one operation to the structure and the model, compare the returned value
+/// with the documented contract, then observe the whole state.
+fn step(sut: &mut Sut, m: &mut Part, n: u32, op: Op) -> Result<StepInfo, Violation> {
+    let tag = sut.tag();
+    let mut merged = false;
+    match op {
+        Op::Union(a, b) => {
+            let (p, c) = match sut {
+                Sut::Seq(u) => u.union(id(a), id(b)),
+                Sut::Conc(u) => u.union(id(a), id(b)),
+            };
+            let (p, c) = (p.rep(), c.rep());
+            let (ra, rb) = (m.root(a), m.root(b));
+            let (mp, mc, mg) = m.union(a, b);
+            merged = mg;
+            if (p, c) != (mp, mc) {
+                let sig = if mg { format!("{tag}-union-return-wrong-when-merging") } else { format!("{tag}-union-return-wrong-when-already-joined") };
+                return Err(Violation::new(
+                    sig,
+                    format!(
+                        "union({a},{b}) returned (parent {p}, child {c}); roots before were {ra} and {rb}, so the contract \"(new parent, displaced child) / the representative twice if already together\" with min-id representatives requires ({mp},{mc})"
+                    ),
+                ));
+            }
+        }
+        Op::Find(x) | Op::FindNaive(x) | Op::Reserve(x) => {
+            let r = match (&mut *sut, op) {
+                (Sut::Seq(u), Op::Find(_)) => Some(u.find(id(x)).rep()),
+                (Sut::Seq(u), Op::FindNaive(_)) => Some(u.find_naive(id(x)).rep()),
+                (Sut::Seq(u), _) => {
+                    u.reserve(id(x));
+                    None
+                }
+                (Sut::Conc(u), _) => Some(u.find(id(x)).rep()),
+            };
+            if let Some(r) = r {
+                if r != m.root(x) {
+                    let k = if matches!(op, Op::FindNaive(_)) { "find-naive" } else { "find" };
+                    return Err(Violation::new(
+                        format!("{tag}-{k}-wrong-representative"),
+                        format!("{} returned {r}; the class of {x} under the unions performed is {:?}, minimum {}", op.show(), class_of(m, x), m.root(x)),
+                    ));
+                }
+            }
+        }
+        Op::SameSet(a, b) => {
+            let got = match sut {
+                Sut::Seq(u) => u.find_naive(id(a)) == u.find_naive(id(b)),
+                Sut::Conc(u) => u.same_set(id(a), id(b)),
+            };
+            let want = m.root(a) == m.root(b);
+            if got != want {
+                return Err(Violation::new(
+                    format!("{tag}-same-set-wrong-{got}"),
+                    format!("same_set({a},{b}) = {got}, but connected by the unions performed = {want} (classes by min id {:?})", m.label),
+                ));
+            }
+        }
+        Op::Reset => {
+            match sut {
+                Sut::Seq(u) => u.reset(),
+                Sut::Conc(u) => u.reset(),
+            }
+            m.reset();
+        }
+    }
+    observe(sut, m, n, op.kind())?;
+    Ok(StepInfo { merged })
+}
+
+fn class_of(m: &Part, x: u32) -> Vec<u32> {
+    (0..m.label.len() as u32).filter(|y| m.root(*y) == m.root(x)).collect()
+}
+
+fn guarded_step(sut: &mut Sut, m: &mut Part, n: u32, op: Op) -> Result<StepInfo, Violation> {
+    match fw::catch(|| step(sut, m, n, op)) {
+        Ok(r) => r,
+        Err(msg) => Err(Violation::new(format!("panic:{}", fw::panic_key(&msg)), format!("`{}` (or the observation after it) panicked: {msg}", op.show()))),
+    }
+}
+
+fn alphabet(t: Target, n: u32) -> Vec<Op> {
+    let mut v = vec![];
+    for a in 0..n {
+        for b in 0..n {
+            v.push(Op::Union(a, b));
+        }
+    }
+    for a in 0..n {
+        v.push(Op::Find(a));
+    }
+    match t {
+        Target::Seq => {
+            for a in 0..n {
+                v.push(Op::FindNaive(a));
+            }
+            for a in 0..n {
+                v.push(Op::Reserve(a));
+            }
+        }
+        Target::Conc => {
+            for a in 0..n {
+                for b in 0..n {
+                    v.push(Op::SameSet(a, b));
+                }
+            }
+        }
+    }
+    v.push(Op::Reset);
+    v
+}
+
+#[derive(Default)]
+struct Eval {
+    /// sequences fully checked (for a batch: the extensions; for a plain sequence: 1)
+    sequences: u64,
+    /// of those: >= 1 union that merged two classes and >= 1 find/find_naive/same_set after it
+    nontrivial: u64,
+    merges: u64,
+    fail: Option<(Vec<Op>, Violation)>,
+    invalid: bool,
+}
+
+struct Dfs<'a> {
+    n: u32,
+    alpha: &'a [Op],
+    path: Vec<Op>,
+    ev: Eval,
+    /// only failures strictly shorter than this are still interesting
+    limit: usize,
+}
+
+impl Dfs<'_> {
+    /// `flags`: 0 = no merge yet, 1 = merged, 2 = merged and queried afterwards
+    fn go(&mut self, sut: &Sut, m: &Part, left: u32, flags: u8) {
+        for i in 0..self.alpha.len() {
+            if self.path.len() + 1 >= self.limit {
+                return;
+            }
+            let op = self.alpha[i];
+            let mut s = sut.fork();
+            let mut mm = m.clone();
+            self.path.push(op);
+            match guarded_step(&mut s, &mut mm, self.n, op) {
+                Err(v) => {
+                    self.limit = self.path.len();
+                    self.ev.fail = Some((self.path.clone(), v));
+                }
+                Ok(info) => {
+                    let fl = match (flags, info.merged, op.is_query()) {
+                        (0, true, _) => 1,
+                        (1, _, true) => 2,
+                        (f, _, _) => f,
+                    };
+                    self.ev.sequences += 1;
+                    self.ev.merges += info.merged as u64;
+                    if fl == 2 {
+                        self.ev.nontrivial += 1;
+                    }
+                    if left > 1 {
+                        self.go(&s, &mm, left - 1, fl);
+                    }
+                }
+            }
+            self.path.pop();
+        }
+    }
+}
+
+fn eval_seq(case: &SeqCase) -> Eval {
+    let mut ev = Eval::default();
+    if case.n == 0 || case.n > 4096 || case.cap > 1 << 20 || case.ops.iter().any(|o| o.max_id() >= case.n) {
+        ev.invalid = true;
+        return ev;
+    }
+    let n = case.n;
+    let mut sut = Sut::new(case.target, case.cap);
+    let mut m = Part::new(n as usize + 1);
+    if let Err(v) = fw::catch(|| observe(&sut, &m, n, "init")).unwrap_or_else(|p| Err(Violation::new(format!("panic:{}", fw::panic_key(&p)), format!("observing the fresh structure panicked: {p}")))) {
+        ev.fail = Some((vec![], v));
+        return ev;
+    }
+    let mut flags = 0u8;
+    for (i, op) in case.ops.iter().enumerate() {
+        match guarded_step(&mut sut, &mut m, n, *op) {
+            Err(v) => {
+                ev.fail = Some((case.ops[..=i].to_vec(), v));
+                return ev;
+            }
+            Ok(info) => {
+                ev.merges += info.merged as u64;
+                flags = match (flags, info.merged, op.is_query()) {
+                    (0, true, _) => 1,
+                    (1, _, true) => 2,
+                    (f, _, _) => f,
+                };
+            }
+        }
+    }
+    if case.extend == 0 {
+        ev.sequences = 1;
+        ev.nontrivial = (flags == 2) as u64;
+        return ev;
+    }
+    let alpha = alphabet(case.target, n);
+    let merges = ev.merges;
+    let mut d = Dfs { n, alpha: &alpha, path: case.ops.clone(), ev: Eval::default(), limit: usize::MAX };
+    d.go(&sut, &m, case.extend, flags);
+    d.ev.merges += merges;
+    d.ev
+}
+
+pub struct SeqStage {
+    pub name: &'static str,
+}
+
+fn render_seq(c: &SeqCase) -> J {
+    let mut j = json!({
+        "structure": match c.target { Target::Seq => "egglog_union_find::UnionFind", Target::Conc => "egglog_union_find::concurrent::UnionFind (single thread)" },
+        "ids_below": c.n,
+        "ops": if c.ops.len() <= 64 { json!(show_ops(&c.ops)) } else { json!(format!("{} … ({} ops)", show_ops(&c.ops[..48]), c.ops.len())) },
+    });
+    if c.target == Target::Conc {
+        j["initial_capacity"] = json!(c.cap);
+    }
+    if c.extend > 0 {
+        j["then_every_extension_of_length_up_to"] = json!(c.extend);
+    }
+    j
+}
+
+impl Stage for SeqStage {
+    type Input = SeqCase;
+    fn name(&self) -> &'static str {
+        self.name
+    }
+    fn decode(&self, src: &mut Src) -> SeqCase {
+        let target = if src.chance(2, 5) { Target::Conc } else { Target::Seq };
+        let n = 2 + src.below(63) as u32;
+        let cap = *src.pick(&[0u32, 1, 2, 4, 8, 16, 32, 64]);
+        let maxlen = match src.below(4) {
+            0 => 24,
+            1 => 240,
+            _ => 2000,
+        };
+        let uw = *src.pick(&[8usize, 20, 36]);
+        let reset_on = src.chance(1, 3);
+        let local = src.bool();
+        let half = uw + (60 - uw) / 2;
+        let mut ops = vec![];
+        while ops.len() < maxlen && !src.exhausted() {
+            let k = src.below(64);
+            let a = src.below(n as usize) as u32;
+            let op = if k < uw {
+                let b = if local { (a + 1 + src.below(3) as u32) % n } else { src.below(n as usize) as u32 };
+                Op::Union(a, b)
+            } else if k < half {
+                Op::Find(a)
+            } else if k < 60 {
+                match target {
+                    Target::Seq => Op::FindNaive(a),
+                    Target::Conc => Op::SameSet(a, src.below(n as usize) as u32),
+                }
+            } else if k < 63 {
+                match target {
+                    Target::Seq => Op::Reserve(a),
+                    Target::Conc => Op::Find(a),
+                }
+            } else if reset_on {
+                Op::Reset
+            } else {
+                Op::Find(a)
+            };
+            ops.push(op);
+        }
+        SeqCase { target, n, cap, ops, extend: 0 }
+    }
+    fn render(&self, c: &SeqCase) -> J {
+        render_seq(c)
+    }
+    fn simplify(&self, c: &SeqCase) -> Vec<SeqCase> {
+        let mut out = vec![];
+        if c.extend > 0 {
+            if let Some((ops, _)) = eval_seq(c).fail {
+                out.push(SeqCase { ops, extend: 0, ..c.clone() });
+            }
+            return out;
+        }
+        if let Some((ops, _)) = eval_seq(c).fail {
+            if ops.len() < c.ops.len() {
+                out.push(SeqCase { ops, ..c.clone() });
+            }
+        }
+        let len = c.ops.len();
+        let mut size = len / 2;
+        while size >= 1 && out.len() < 300 {
+            let mut at = 0;
+            while at + size <= len && out.len() < 300 {
+                let mut ops = c.ops.clone();
+                ops.drain(at..at + size);
+                out.push(SeqCase { ops, ..c.clone() });
+                at += size;
+            }
+            size /= 2;
+        }
+        let used = c.ops.iter().map(|o| o.max_id()).max().unwrap_or(0) + 1;
+        if used < c.n {
+            out.push(SeqCase { n: used, ..c.clone() });
+        }
+        if c.target == Target::Conc && c.cap != 0 {
+            out.push(SeqCase { cap: 0, ..c.clone() });
+        }
+        out
+    }
+    fn check(&self, c: &SeqCase) -> Outcome {
+        let ev = eval_seq(c);
+        seq_outcome(c, &ev)
+    }
+}
+
+fn seq_key(c: &SeqCase) -> u64 {
+    fnv_str(&serde_json::to_string(c).unwrap_or_default())
+}
+
+fn seq_outcome(c: &SeqCase, ev: &Eval) -> Outcome {
+    let mut out = Outcome::new(seq_key(c));
+    if ev.invalid {
+        out.class("invalid-input");
+        return out;
+    }
+    out.nontrivial = ev.nontrivial > 0;
+    out.count("sequences", ev.sequences);
+    out.count("nontrivial_sequences", ev.nontrivial);
+    out.count("merging_unions", ev.merges);
+    out.class(format!("structure={}", c.target.tag()));
+    if c.extend > 0 {
+        out.class(format!("{}:ids={}:len<={}", c.target.tag(), c.n, c.ops.len() as u32 + c.extend));
+    } else {
+        out.class(match c.ops.len() {
+            0..=24 => "len<=24",
+            25..=240 => "len<=240",
+            _ => "len<=2000",
+        });
+        out.class(match ev.merges {
+            0 => "merges=0",
+            1..=7 => "merges=1..7",
+            8..=31 => "merges=8..31",
+            _ => "merges>=32",
+        });
+        if c.ops.iter().any(|o| matches!(o, Op::Reset)) {
+            out.class("has-reset");
+        }
+    }
+    if let Some((ops, v)) = &ev.fail {
+        out.fail(v.sig.clone(), format!("failing sequence ({} ops, {}, ids < {}{}): {}\n{}", ops.len(), c.target.tag(), c.n, if c.target == Target::Conc { format!(", initial capacity {}", c.cap) } else { String::new() }, show_ops(ops), v.detail));
+    }
+    out
+}
+
+// ----- exhaustive plan -------------------------------------------------------
+
+#[derive(Clone, Copy)]
+struct ExhCfg {
+    target: Target,
+    n: u32,
+    cap: u32,
+    len: u32,
+}
+
+fn exh_plan(tier: Tier) -> Vec<ExhCfg> {
+    let c = |target, n, cap, len| ExhCfg { target, n, cap, len };
+    match tier {
+        Tier::Quick => vec![
+            c(Target::Seq, 4, 0, 5),
+            c(Target::Seq, 3, 0, 6),
+            c(Target::Seq, 5, 0, 4),
+            c(Target::Conc, 3, 0, 5),
+            c(Target::Conc, 3, 2, 4),
+            c(Target::Conc, 4, 0, 4),
+            c(Target::Conc, 4, 3, 4),
+        ],
+        Tier::Thorough => vec![
+            c(Target::Seq, 4, 0, 6),
+            c(Target::Seq, 3, 0, 7),
+            c(Target::Seq, 5, 0, 5),
+            c(Target::Seq, 6, 0, 4),
+            c(Target::Conc, 3, 0, 6),
+            c(Target::Conc, 3, 1, 5),
+            c(Target::Conc, 3, 2, 5),
+            c(Target::Conc, 4, 0, 5),
+            c(Target::Conc, 4, 3, 5),
+            c(Target::Conc, 4, 32, 4),
+            c(Target::Conc, 5, 0, 4),
+        ],
+    }
+}
+
+/// Shallow batches (all sequences of length <= 2) for every configuration first,
+/// then one deep batch per 2-op prefix. Returns (batches, number of shallow ones).
+fn exh_batches(tier: Tier) -> (Vec<SeqCase>, usize) {
+    let plan = exh_plan(tier);
+    let mut v = vec![];
+    for c in &plan {
+        v.push(SeqCase { target: c.target, n: c.n, cap: c.cap, ops: vec![], extend: c.len.min(2) });
+    }
+    let shallow = v.len();
+    for c in &plan {
+        if c.len <= 2 {
+            continue;
+        }
+        let alpha = alphabet(c.target, c.n);
+        for a in &alpha {
+            for b in &alpha {
+                v.push(SeqCase { target: c.target, n: c.n, cap: c.cap, ops: vec![*a, *b], extend: c.len - 2 });
+            }
+        }
+    }
+    (v, shallow)
+}
+
+fn tier_of(s: &str) -> Tier {
+    if s == "thorough" { Tier::Thorough } else { Tier::Quick }
+}
+
+/// child `c17-seqexh`: run the batches i of the tier's plan with i % shards == shard,
+/// in increasing order, single-threaded (the concurrent structure's construction and
+/// destruction go through process-global arc-swap bookkeeping that contends badly
+/// between threads, so the parallelism is over processes); stop at the first failure.
+fn child_seqexh(payload: &J) -> J {
+    fw::install_quiet_panic_hook();
+    let tier = tier_of(payload["tier"].as_str().unwrap_or("quick"));
+    let shards = payload["shards"].as_u64().unwrap_or(1).max(1) as usize;
+    let shard = payload["shard"].as_u64().unwrap_or(0) as usize;
+    let (batches, _) = exh_batches(tier);
+    let mut results: Vec<J> = vec![];
+    let mut complete = true;
+    for (i, b) in batches.iter().enumerate() {
+        if i % shards != shard {
+            continue;
+        }
+        let t = std::time::Instant::now();
+        let ev = eval_seq(b);
+        results.push(json!({"i": i, "us": t.elapsed().as_micros() as u64, "sequences": ev.sequences, "nontrivial": ev.nontrivial, "merges": ev.merges,
+               "fail": ev.fail.as_ref().map(|(ops, v)| json!({"ops": ops, "sig": v.sig, "detail": v.detail}))}));
+        if ev.fail.is_some() {
+            complete = false;
+            break;
+        }
+    }
+    json!({"results": results, "complete": complete})
+}
+
+fn run_seq_exhaustive(rep: &Report) {
+    let stage = SeqStage { name: "seq-exhaustive" };
+    rep.run_regressions(&stage);
+    if rep.stopped() {
+        return;
+    }
+    let (batches, _) = exh_batches(rep.tier);
+    let timeout = Duration::from_secs(rep.tier.pick(900, 6 * 3600));
+    let shards = rep.threads.clamp(1, 64);
+    let outcomes: Vec<ChildResult> = std::thread::scope(|sc| {
+        let hs: Vec<_> = (0..shards)
+            .map(|k| {
+                let tier = rep.tier.name();
+                sc.spawn(move || run_child(ChildJob { kind: "c17-seqexh", payload: json!({"tier": tier, "shard": k, "shards": shards}), env: vec![], timeout, cwd: None }))
+            })
+            .collect();
+        hs.into_iter().map(|h| h.join().unwrap_or_else(|_| ChildResult::Broken("launcher thread panicked".into()))).collect()
+    });
+    let mut all: Vec<J> = vec![];
+    let mut complete = true;
+    for res in outcomes {
+        match res {
+            ChildResult::Ok(j) => {
+                complete &= j["complete"].as_bool() == Some(true);
+                all.extend(j["results"].as_array().cloned().unwrap_or_default());
+            }
+            ChildResult::Crashed { status, stderr } => {
+                let v = Violation::new(
+                    format!("seq-exhaustive-crash:{}", crash_key(&status, &stderr)),
+                    format!("a child enumerating all short operation sequences died ({status}); stderr tail:\n{stderr}"),
+                );
+                rep.add_violation(v, "<none: the enumerating child crashed; re-run the stage>".to_string());
+                return;
+            }
+            ChildResult::Quiescent { stderr } => {
+                let v = Violation::new("seq-exhaustive-deadlock", format!("a child enumerating all short operation sequences went quiescent (every thread asleep) before finishing; stderr tail:\n{stderr}"));
+                rep.add_violation(v, "<none: the enumerating child deadlocked; re-run the stage>".to_string());
+                return;
+            }
+            ChildResult::Busy => {
+                rep.inconclusive(format!("seq-exhaustive: a child was still computing after {}s (hang / infinite loop suspect, or machine too slow)", timeout.as_secs()));
+                return;
+            }
+            ChildResult::Broken(m) => {
+                rep.inconclusive(format!("seq-exhaustive: child protocol error: {m}"));
+                return;
+            }
+        }
+    }
+    // deterministic order; everything after the smallest failing batch is dropped
+    all.sort_by_key(|r| r["i"].as_u64().unwrap_or(u64::MAX));
+    if let Some(pos) = all.iter().position(|r| r["fail"].is_object()) {
+        all.truncate(pos + 1);
+    }
+    let j = json!({"results": all, "complete": complete});
+    let mut total = 0u64;
+    let mut total_nt = 0u64;
+    let mut per_cfg: BTreeMap<String, u64> = BTreeMap::new();
+    let mut per_cfg_cpu: BTreeMap<String, f64> = BTreeMap::new();
+    for r in j["results"].as_array().cloned().unwrap_or_default() {
+        let i = r["i"].as_u64().unwrap_or(u64::MAX) as usize;
+        let Some(b) = batches.get(i) else { continue };
+        let mut ev = Eval { sequences: r["sequences"].as_u64().unwrap_or(0), nontrivial: r["nontrivial"].as_u64().unwrap_or(0), merges: r["merges"].as_u64().unwrap_or(0), fail: None, invalid: false };
+        total += ev.sequences;
+        total_nt += ev.nontrivial;
+        let cfg = format!("{}:ids={}:cap={}:len<={}", b.target.tag(), b.n, b.cap, b.ops.len() as u32 + b.extend);
+        *per_cfg.entry(cfg.clone()).or_insert(0) += ev.sequences;
+        *per_cfg_cpu.entry(cfg).or_insert(0.0) += r["us"].as_u64().unwrap_or(0) as f64 / 1e6;
+        if r["fail"].is_object() {
+            let ops: Vec<Op> = serde_json::from_value(r["fail"]["ops"].clone()).unwrap_or_default();
+            let exact = minimize_seq(&stage, SeqCase { ops, extend: 0, ..b.clone() }, r["fail"]["sig"].as_str().unwrap_or(""));
+            if rep.run_one(&stage, &exact).is_none() {
+                // did not reproduce as a plain sequence: report the batch itself
+                rep.note(format!("seq-exhaustive: the failure in batch {i} did not reproduce as a single sequence; replaying the batch"));
+                if rep.run_one(&stage, b).is_none() {
+                    ev.fail = Some((vec![], Violation::new(r["fail"]["sig"].as_str().unwrap_or("?").to_string(), r["fail"]["detail"].as_str().unwrap_or("").to_string())));
+                    let out = seq_outcome(b, &ev);
+                    if let Some(v) = rep.record(stage.name(), out, || render_seq(b)) {
+                        let p = rep.write_replay(&stage, b, &v);
+                        rep.add_violation(v, p);
+                    }
+                }
+            }
+            return;
+        }
+        let out = seq_outcome(b, &ev);
+        rep.record(stage.name(), out, || render_seq(b));
+    }
+    rep.extra(
+        "seq_exhaustive",
+        json!({"sequences_checked": total, "nontrivial_sequences": total_nt, "per_configuration": per_cfg, "per_configuration_thread_seconds": per_cfg_cpu,
+               "complete": j["complete"].as_bool().unwrap_or(false),
+               "alphabet": "seq: union(a,b) all ordered pairs incl. a=b, find(a), find_naive(a), reserve(a), reset; conc: union(a,b), find(a), same_set(a,b), reset"}),
+    );
+    if j["complete"].as_bool() == Some(true) {
+        rep.set_exhaustive();
+        rep.note("exhaustive=true refers to stage seq-exhaustive (every operation sequence up to the stated length over the stated ids); seq-random and concurrent are sampled");
+    }
+}
+
+/// Greedy structural minimisation of a failing plain sequence (same signature), in-process.
+fn minimize_seq(stage: &SeqStage, mut case: SeqCase, sig: &str) -> SeqCase {
+    let mut budget = 400;
+    'outer: loop {
+        for cand in stage.simplify(&case) {
+            if budget == 0 {
+                break 'outer;
+            }
+            budget -= 1;
+            if matches!(eval_seq(&cand).fail, Some((_, ref v)) if v.sig == sig) {
+                case = cand;
+                continue 'outer;
+            }
+        }
+        break;
+    }
+    case
+}
+
+fn crash_key(status: &str, stderr: &str) -> String {
+    let line = stderr.lines().rev().find(|l| l.contains("panicked") || l.contains("overflow") || l.contains("SIG")).unwrap_or("");
+    if line.is_empty() { status.to_string() } else { fw::panic_key(line) }
+}
+
+// ---------------------------------------------------------------------------
+// concurrent scenarios
+// ---------------------------------------------------------------------------
+
+#[derive(Clone, Copy, Serialize, Deserialize, PartialEq, Eq, Debug)]
+pub enum CK {
+    Union,
+    Find,
+    SameSet,
+}
+
+#[derive(Clone, Copy, Serialize, Deserialize, Debug)]
+pub struct COp {
+    pub k: CK,
+    pub a: u32,
+    pub b: u32,
+    /// perturbation before the call: 1..=9 -> that many yield_now(), >= 10 -> (pause-9)*32 spin hints
+    pub pause: u8,
+}
+
+impl COp {
+    fn show(&self) -> String {
+        match self.k {
+            CK::Union => format!("union({},{})", self.a, self.b),
+            CK::Find => format!("find({})", self.a),
+            CK::SameSet => format!("same_set({},{})", self.a, self.b),
+        }
+    }
+}
+
+#[derive(Clone, Serialize, Deserialize)]
+pub struct ConcCase {
+    /// `UnionFind::with_capacity(cap)`
+    pub cap: u32,
+    /// operations use ids < ids
+    pub ids: u32,
+    pub threads: Vec<Vec<COp>>,
+}
+
+/// One completed operation of a recorded history.
+#[derive(Clone, Serialize, Deserialize, Debug)]
+struct Rec {
+    t: u32,
+    k: CK,
+    a: u32,
+    b: u32,
+    inv: u64,
+    resp: u64,
+    /// find: representative; same_set: 0/1; union: parent
+    r0: u32,
+    /// union: child
+    r1: u32,
+}
+
+impl Rec {
+    fn show(&self) -> String {
+        let res = match self.k {
+            CK::Union => format!("union({},{}) -> (parent {}, child {})", self.a, self.b, self.r0, self.r1),
+            CK::Find => format!("find({}) -> {}", self.a, self.r0),
+            CK::SameSet => format!("same_set({},{}) -> {}", self.a, self.b, self.r0 == 1),
+        };
+        format!("T{} [{}..{}] {}", self.t, self.inv, self.resp, res)
+    }
+}
+
+fn pause(p: u8) {
+    if p == 0 {
+    } else if p <= 9 {
+        for _ in 0..p {
+            std::thread::yield_now();
+        }
+    } else {
+        for _ in 0..(p as u32 - 9) * 32 {
+            std::hint::spin_loop();
+        }
+    }
+}
+
+#[derive(Default)]
+struct ConcStats {
+    runs: u64,
+    ops: u64,
+    /// pairs of operations of different threads whose [inv, resp] intervals overlap
+    overlapping_pairs: u64,
+    /// ... and which touch the same final class, at least one being a union
+    conflicting_pairs: u64,
+    /// unions that returned a parent that was not the class minimum when they completed
+    displaced_parent: u64,
+    wg_histories: u64,
+    wg_states: u64,
+    /// runs in which some operation on an id >= cap overlapped another thread's operation
+    runs_with_concurrent_resize: u64,
+}
+
+/// Execute the scenario `reps` times; Err = first violation found.
+fn run_scenario(case: &ConcCase, reps: usize, stats: &mut ConcStats) -> Result<(), Violation> {
+    let nt = case.threads.len();
+    let ufs: Vec<ConcUf<Id>> = (0..reps).map(|_| ConcUf::with_capacity(case.cap as usize)).collect();
+    let clocks: Vec<AtomicU64> = (0..reps).map(|_| AtomicU64::new(0)).collect();
+    let arrived: Vec<AtomicUsize> = (0..reps).map(|_| AtomicUsize::new(0)).collect();
+    let bar = Barrier::new(nt);
+    let per_thread: Vec<Vec<(Vec<Rec>, Option<String>)>> = std::thread::scope(|s| {
+        let handles: Vec<_> = case
+            .threads
+            .iter()
+            .enumerate()
+            .map(|(t, ops)| {
+                let (ufs, clocks, arrived, bar) = (&ufs, &clocks, &arrived, &bar);
+                s.spawn(move || {
+                    let mut out = Vec::with_capacity(reps);
+                    for r in 0..reps {
+                        // a shallow clone shares the structure (documented)
+                        let uf = ufs[r].clone();
+                        let clock = &clocks[r];
+                        let mut recs: Vec<Rec> = Vec::with_capacity(ops.len());
+                        bar.wait();
+                        // every thread is past the barrier and runnable: align the start more tightly
+                        arrived[r].fetch_add(1, Ordering::SeqCst);
+                        let mut spins = 0u32;
+                        while arrived[r].load(Ordering::Acquire) < nt && spins < 60_000 {
+                            spins += 1;
+                            if spins > 30_000 {
+                                std::thread::yield_now();
+                            } else {
+                                std::hint::spin_loop();
+                            }
+                        }
+                        let res = fw::catch(|| {
+                            for op in ops {
+                                pause(op.pause);
+                                let (r0, r1, inv, resp);
+                                match op.k {
+                                    CK::Union => {
+                                        inv = clock.fetch_add(1, Ordering::SeqCst);
+                                        let (p, c) = uf.union(id(op.a), id(op.b));
+                                        resp = clock.fetch_add(1, Ordering::SeqCst);
+                                        r0 = p.rep();
+                                        r1 = c.rep();
+                                    }
+                                    CK::Find => {
+                                        inv = clock.fetch_add(1, Ordering::SeqCst);
+                                        let x = uf.find(id(op.a));
+                                        resp = clock.fetch_add(1, Ordering::SeqCst);
+                                        r0 = x.rep();
+                                        r1 = 0;
+                                    }
+                                    CK::SameSet => {
+                                        inv = clock.fetch_add(1, Ordering::SeqCst);
+                                        let x = uf.same_set(id(op.a), id(op.b));
+                                        resp = clock.fetch_add(1, Ordering::SeqCst);
+                                        r0 = x as u32;
+                                        r1 = 0;
+                                    }
+                                }
+                                recs.push(Rec { t: t as u32, k: op.k, a: op.a, b: op.b, inv, resp, r0, r1 });
+                            }
+                        });
+                        bar.wait();
+                        out.push((recs, res.err()));
+                    }
+                    out
+                })
+            })
+            .collect();
+        handles.into_iter().map(|h| h.join().unwrap_or_default()).collect()
+    });
+    for r in 0..reps {
+        let mut hist: Vec<Rec> = vec![];
+        let mut panic: Option<(usize, String)> = None;
+        for (t, th) in per_thread.iter().enumerate() {
+            let Some((recs, p)) = th.get(r) else {
+                return Err(Violation::new("concurrent-crash:worker-thread-lost", format!("worker thread {t} did not return its history")));
+            };
+            hist.extend(recs.iter().cloned());
+            if let (Some(p), None) = (p, &panic) {
+                panic = Some((t, p.clone()));
+            }
+        }
+        hist.sort_by_key(|x| x.inv);
+        if let Some((t, p)) = panic {
+            return Err(Violation::new(
+                format!("concurrent-crash:{}", fw::panic_key(&p)),
+                format!("run {r}: thread {t} panicked inside an operation: {p}\ncompleted operations so far:\n{}", show_hist(&hist, 80)),
+            ));
+        }
+        stats.runs += 1;
+        stats.ops += hist.len() as u64;
+        check_final(case, &ufs[r]).map_err(|v| with_hist(v, r, &hist))?;
+        check_history(case, &hist, stats).map_err(|v| with_hist(v, r, &hist))?;
+        if hist.len() <= 16 {
+            stats.wg_histories += 1;
+            if !wing_gong(case.ids as usize, &hist, &mut stats.wg_states) {
+                return Err(with_hist(
+                    Violation::new(
+                        "concurrent-not-linearizable",
+                        "complete search: no order of the operations that respects real time (an operation that returned before another was called comes first) explains every find / same_set / union result with min-id representatives",
+                    ),
+                    r,
+                    &hist,
+                ));
+            }
+        }
+    }
+    Ok(())
+}
+
+fn show_hist(hist: &[Rec], max: usize) -> String {
+    let mut s: Vec<String> = hist.iter().take(max).map(|r| format!("  {}", r.show())).collect();
+    if hist.len() > max {
+        s.push(format!("  … ({} operations in total)", hist.len()));
+    }
+    s.join("\n")
+}
+
+fn with_hist(v: Violation, run: usize, hist: &[Rec]) -> Violation {
+    Violation::new(v.sig, format!("run {run}: {}\nrecorded history (stamps from one shared counter, [invocation..response]):\n{}", v.detail, show_hist(hist, 120)))
+}
+
+/// After all threads joined: the partition is the closure of all unions, every
+/// representative is the class minimum, same_set agrees, a deep copy agrees and
+/// reset gives singletons.
+fn check_final(case: &ConcCase, uf: &ConcUf<Id>) -> Result<(), Violation> {
+    let n = case.ids;
+    let mut m = Part::new(n as usize + 1);
+    for th in &case.threads {
+        for op in th {
+            if op.k == CK::Union {
+                m.union(op.a, op.b);
+            }
+        }
+    }
+    let copy = uf.deep_copy();
+    for x in 0..=n {
+        let y = m.root(x);
+        let got = uf.same_set(id(x), id(y));
+        if !got {
+            return Err(Violation::new(
+                "concurrent-lost-union",
+                format!("after all threads finished: same_set({x},{y}) = false, but the unions performed connect them (class {:?})", class_of(&m, x)),
+            ));
+        }
+        let z = (x * 7 + 3) % (n + 1);
+        let got = uf.same_set(id(x), id(z));
+        if got != (m.root(z) == y) {
+            return Err(Violation::new(
+                if got { "concurrent-spurious-merge" } else { "concurrent-lost-union" },
+                format!("after all threads finished: same_set({x},{z}) = {got}, closure of the unions says {}", m.root(z) == y),
+            ));
+        }
+    }
+    let reps: Vec<u32> = (0..=n).map(|x| uf.find(id(x)).rep()).collect();
+    if reps != m.label {
+        let sig = if same_partition(&reps, &m.label) {
+            "concurrent-final-representative-not-minimum"
+        } else if reps.iter().zip(m.label.iter()).enumerate().any(|(x, (r, l))| r != l && m.root(*r) != m.root(x as u32)) {
+            "concurrent-spurious-merge"
+        } else {
+            "concurrent-lost-union"
+        };
+        return Err(Violation::new(sig, format!("after all threads finished: find by id = {reps:?}, but the closure of all unions gives (min id of each class) {:?}", m.label)));
+    }
+    let reps2: Vec<u32> = (0..=n).map(|x| copy.find(id(x)).rep()).collect();
+    if reps2 != m.label {
+        return Err(Violation::new("concurrent-deep-copy-differs", format!("deep_copy taken after all threads finished: find by id = {reps2:?}, expected {:?}", m.label)));
+    }
+    copy.reset();
+    let reps3: Vec<u32> = (0..=n).map(|x| copy.find(id(x)).rep()).collect();
+    if reps3.iter().enumerate().any(|(i, r)| *r != i as u32) {
+        return Err(Violation::new("concurrent-reset-not-singletons", format!("after reset() on the deep copy: find by id = {reps3:?}")));
+    }
+    let again: Vec<u32> = (0..=n).map(|x| uf.find(id(x)).rep()).collect();
+    if again != m.label {
+        return Err(Violation::new("concurrent-deep-copy-not-independent", format!("reset() on the deep copy changed the original: find by id = {again:?}, expected {:?}", m.label)));
+    }
+    Ok(())
+}
+
+/// Sound necessary conditions of linearizability (with min-id representatives):
+/// for an operation o let MAY(o) be the closure of the unions invoked before o
+/// returned and MUST(o) the closure of the unions that returned before o was invoked.
+/// At o's linearization point the partition S satisfies MUST ⊆ S ⊆ MAY, so a
+/// representative r reported for x must have: r ~MAY x, r <= min MUST-class(x),
+/// and r = min of its own MUST class (otherwise r stopped being a root before o began).
+fn check_history(case: &ConcCase, hist: &[Rec], stats: &mut ConcStats) -> Result<(), Violation> {
+    let n = case.ids as usize + 1;
+    let cnt = hist.len();
+    for r in hist {
+        let bad = match r.k {
+            CK::Union => r.r0 as usize >= n || r.r1 as usize >= n,
+            CK::Find => r.r0 as usize >= n,
+            CK::SameSet => false,
+        };
+        if bad {
+            return Err(Violation::new("concurrent-result-out-of-range", format!("{} returned an id that was never used", r.show())));
+        }
+    }
+    // facts under MAY (ops by response, unions by invocation)
+    let mut may_a = vec![false; cnt]; // find: r~x ; same_set: a~b ; union: child~a
+    let mut may_b = vec![false; cnt]; // union: parent~a
+    {
+        let mut by_resp: Vec<usize> = (0..cnt).collect();
+        by_resp.sort_by_key(|i| hist[*i].resp);
+        let mut us: Vec<usize> = (0..cnt).filter(|i| hist[*i].k == CK::Union).collect();
+        us.sort_by_key(|i| hist[*i].inv);
+        let mut d = Dsu::new(n);
+        let mut ui = 0;
+        for &i in &by_resp {
+            let o = &hist[i];
+            while ui < us.len() && hist[us[ui]].inv < o.resp {
+                d.union(hist[us[ui]].a, hist[us[ui]].b);
+                ui += 1;
+            }
+            match o.k {
+                CK::Find => may_a[i] = d.same(o.r0, o.a),
+                CK::SameSet => may_a[i] = d.same(o.a, o.b),
+                CK::Union => {
+                    may_a[i] = d.same(o.r1, o.a);
+                    may_b[i] = d.same(o.r0, o.a);
+                }
+            }
+        }
+    }
+    // facts under MUST (ops by invocation, unions by response)
+    let mut must_min_a = vec![0u32; cnt];
+    let mut must_min_b = vec![0u32; cnt];
+    let mut must_min_r0 = vec![0u32; cnt];
+    let mut must_min_r1 = vec![0u32; cnt];
+    {
+        let mut us: Vec<usize> = (0..cnt).filter(|i| hist[*i].k == CK::Union).collect();
+        us.sort_by_key(|i| hist[*i].resp);
+        let mut d = Dsu::new(n);
+        let mut ui = 0;
+        for (i, o) in hist.iter().enumerate() {
+            // hist is sorted by invocation
+            while ui < us.len() && hist[us[ui]].resp < o.inv {
+                d.union(hist[us[ui]].a, hist[us[ui]].b);
+                ui += 1;
+            }
+            must_min_a[i] = d.find(o.a);
+            must_min_b[i] = d.find(o.b);
+            if o.k != CK::SameSet {
+                must_min_r0[i] = d.find(o.r0);
+            }
+            if o.k == CK::Union {
+                must_min_r1[i] = d.find(o.r1);
+            }
+        }
+    }
+    let mut child_of: BTreeMap<u32, usize> = BTreeMap::new();
+    for (i, o) in hist.iter().enumerate() {
+        match o.k {
+            CK::Find => {
+                let r = o.r0;
+                if !may_a[i] {
+                    return Err(Violation::new("concurrent-find-unconnected-representative", format!("{}: {r} is not connected to {} by the unions invoked before this find returned", o.show(), o.a)));
+                }
+                if r > must_min_a[i] {
+                    return Err(Violation::new(
+                        "concurrent-find-not-minimum",
+                        format!("{}: unions that had already returned before this find was called put {} in a class with the smaller id {}, so the representative cannot be {r}", o.show(), o.a, must_min_a[i]),
+                    ));
+                }
+                if must_min_r0[i] != r {
+                    return Err(Violation::new(
+                        "concurrent-find-stale-root",
+                        format!("{}: {r} had been joined to the smaller id {} by unions that returned before this find was called; it is not a representative any more", o.show(), must_min_r0[i]),
+                    ));
+                }
+            }
+            CK::SameSet => {
+                if o.r0 == 1 && !may_a[i] {
+                    return Err(Violation::new("concurrent-same-set-true-unconnected", format!("{}: not connected by the unions invoked before it returned", o.show())));
+                }
+                if o.r0 == 0 && must_min_a[i] == must_min_b[i] {
+                    return Err(Violation::new("concurrent-same-set-false-after-union", format!("{}: unions that returned before it was called already connect them (class minimum {})", o.show(), must_min_a[i])));
+                }
+            }
+            CK::Union => {
+                let (p, c) = (o.r0, o.r1);
+                if p == c {
+                    // "already in the same class, representative twice"
+                    let r = p;
+                    if o.a != o.b {
+                        let mut d = Dsu::new(n);
+                        for (j, u) in hist.iter().enumerate() {
+                            if j != i && u.k == CK::Union && u.inv < o.resp {
+                                d.union(u.a, u.b);
+                            }
+                        }
+                        if !d.same(o.a, o.b) {
+                            return Err(Violation::new(
+                                "concurrent-union-claims-already-joined",
+                                format!("{}: returned the same id twice (\"already in one class\"), but no other unions invoked before it returned connect {} and {}", o.show(), o.a, o.b),
+                            ));
+                        }
+                    }
+                    if !may_b[i] {
+                        return Err(Violation::new("concurrent-union-unconnected-representative", format!("{}: {r} is not connected to the arguments by unions invoked before it returned", o.show())));
+                    }
+                    if r > must_min_a[i] || r > must_min_b[i] || must_min_r0[i] != r {
+                        return Err(Violation::new(
+                            "concurrent-union-representative-not-minimum",
+                            format!("{}: unions that returned before the call give class minima {} / {} for the arguments and {} for {r}", o.show(), must_min_a[i], must_min_b[i], must_min_r0[i]),
+                        ));
+                    }
+                } else {
+                    if p > c {
+                        return Err(Violation::new("concurrent-union-parent-larger-than-child", format!("{}: the new parent must be the smaller id", o.show())));
+                    }
+                    if must_min_a[i] == must_min_b[i] {
+                        return Err(Violation::new(
+                            "concurrent-union-relinked-joined-class",
+                            format!("{}: reports a fresh link, but unions that returned before the call already connect the arguments (class minimum {})", o.show(), must_min_a[i]),
+                        ));
+                    }
+                    if !may_a[i] || !may_b[i] {
+                        return Err(Violation::new("concurrent-union-unconnected-representative", format!("{}: a returned id is not connected to the arguments by unions invoked before it returned", o.show())));
+                    }
+                    if must_min_r1[i] != c || must_min_r0[i] != p {
+                        return Err(Violation::new(
+                            "concurrent-union-stale-root",
+                            format!("{}: a returned id had already been joined to a smaller id (child -> {}, parent -> {}) by unions that returned before the call", o.show(), must_min_r1[i], must_min_r0[i]),
+                        ));
+                    }
+                    let ok = (c <= must_min_a[i] && p <= must_min_b[i]) || (c <= must_min_b[i] && p <= must_min_a[i]);
+                    if !ok {
+                        return Err(Violation::new(
+                            "concurrent-union-representative-not-minimum",
+                            format!("{}: unions that returned before the call give class minima {} / {} for the arguments; (parent, child) cannot both have been roots of the two classes", o.show(), must_min_a[i], must_min_b[i]),
+                        ));
+                    }
+                    if let Some(j) = child_of.insert(c, i) {
+                        return Err(Violation::new(
+                            "concurrent-child-returned-twice",
+                            format!("{} and {}: the same id was reported as the displaced child of two links; an id stops being a root once and for all", hist[j].show(), o.show()),
+                        ));
+                    }
+                }
+            }
+        }
+    }
+    // statistics: real overlap, conflicting overlap, displaced parents
+    let mut fin = Dsu::new(n);
+    for o in hist {
+        if o.k == CK::Union {
+            fin.union(o.a, o.b);
+        }
+    }
+    let mut resize_overlap = false;
+    for i in 0..cnt {
+        let a = &hist[i];
+        for b in hist.iter().skip(i + 1) {
+            if b.inv > a.resp {
+                break;
+            }
+            if a.t == b.t {
+                continue;
+            }
+            stats.overlapping_pairs += 1;
+            let big = |o: &Rec| o.a >= case.cap || (o.k != CK::Find && o.b >= case.cap);
+            if big(a) || big(b) {
+                resize_overlap = true;
+            }
+            if (a.k == CK::Union || b.k == CK::Union) && fin.same(a.a, b.a) {
+                stats.conflicting_pairs += 1;
+            }
+        }
+    }
+    stats.runs_with_concurrent_resize += resize_overlap as u64;
+    {
+        // parent returned by a link that was not the class minimum once every union that returned before it did is applied
+        let mut us: Vec<usize> = (0..cnt).filter(|i| hist[*i].k == CK::Union).collect();
+        us.sort_by_key(|i| hist[*i].resp);
+        let mut d = Dsu::new(n);
+        for &i in &us {
+            let o = &hist[i];
+            d.union(o.a, o.b);
+            if o.r0 != o.r1 && d.find(o.r0) != o.r0 {
+                stats.displaced_parent += 1;
+            }
+        }
+    }
+    Ok(())
+}
+
+/// Complete linearizability search (Wing & Gong) for small histories. The abstract
+/// state after a set of unions does not depend on their order, so the search
+/// memoises on the set of linearized operations. Specification: find(x) = class
+/// minimum; same_set = connected; union = (r, r) if connected, else child = the
+/// larger of the two roots (exact) and parent = a member of the other class
+/// (relaxed, see the module comment).
+fn wing_gong(ids: usize, hist: &[Rec], states: &mut u64) -> bool {
+    let cnt = hist.len();
+    if cnt == 0 {
+        return true;
+    }
+    let full: u32 = if cnt == 32 { u32::MAX } else { (1u32 << cnt) - 1 };
+    let mut dead = vec![false; 1usize << cnt];
+    let mut stack: Vec<u32> = vec![0];
+    while let Some(mask) = stack.pop() {
+        if mask == full {
+            return true;
+        }
+        if dead[mask as usize] {
+            continue;
+        }
+        dead[mask as usize] = true;
+        *states += 1;
+        let mut d = Dsu::new(ids + 1);
+        for (i, o) in hist.iter().enumerate() {
+            if mask >> i & 1 == 1 && o.k == CK::Union {
+                d.union(o.a, o.b);
+            }
+        }
+        // earliest response among the pending operations: only operations invoked before it may go next
+        let min_resp = hist.iter().enumerate().filter(|(i, _)| mask >> i & 1 == 0).map(|(_, o)| o.resp).min().unwrap_or(u64::MAX);
+        for (i, o) in hist.iter().enumerate() {
+            if mask >> i & 1 == 1 || o.inv > min_resp {
+                continue;
+            }
+            let ok = match o.k {
+                CK::Find => d.find(o.a) == o.r0,
+                CK::SameSet => d.same(o.a, o.b) == (o.r0 == 1),
+                CK::Union => {
+                    let (ra, rb) = (d.find(o.a), d.find(o.b));
+                    if ra == rb {
+                        o.r0 == ra && o.r1 == ra
+                    } else {
+                        o.r1 == ra.max(rb) && o.r0 != o.r1 && d.find(o.r0) == ra.min(rb)
+                    }
+                }
+            };
+            if ok {
+                stack.push(mask | 1 << i);
+            }
+        }
+    }
+    false
+}
+
+/// child `c17-concurrent`: {"case": ConcCase, "reps": n} -> verdict
+fn child_concurrent(payload: &J) -> J {
+    fw::install_quiet_panic_hook();
+    let Ok(case) = serde_json::from_value::<ConcCase>(payload["case"].clone()) else {
+        return json!({"error": "bad scenario"});
+    };
+    let reps = payload["reps"].as_u64().unwrap_or(1).max(1) as usize;
+    let mut st = ConcStats::default();
+    let res = run_scenario(&case, reps, &mut st);
+    let stats = json!({"runs": st.runs, "ops": st.ops, "overlapping_pairs": st.overlapping_pairs, "conflicting_pairs": st.conflicting_pairs,
+        "displaced_parent": st.displaced_parent, "wg_histories": st.wg_histories, "wg_states": st.wg_states, "runs_with_concurrent_resize": st.runs_with_concurrent_resize});
+    match res {
+        Ok(()) => json!({"ok": true, "stats": stats}),
+        Err(v) => json!({"ok": false, "sig": v.sig, "detail": v.detail, "stats": stats}),
+    }
+}
+
+pub struct ConcStage {
+    pub reps: usize,
+    pub timeout: Duration,
+}
+
+/// A violation seen once for a scenario stays attached to that scenario for the rest
+/// of the process: the OS schedule is sampled, so re-running the scenario while
+/// shrinking may not hit the same interleaving again; the recorded history in the
+/// detail is the evidence.
+static MEMO: Mutex<BTreeMap<u64, Violation>> = Mutex::new(BTreeMap::new());
+
+thread_local! {
+    /// a scenario failed on this worker thread: proptest is now shrinking bytes on this thread
+    static TL_FAILED: std::cell::Cell<bool> = const { std::cell::Cell::new(false) };
+    /// the framework's structural simplification pass is running on this thread
+    static TL_SIMPLIFY: std::cell::Cell<bool> = const { std::cell::Cell::new(false) };
+}
+/// candidates actually executed during structural simplification (bounded: each costs a child process)
+static SIMPLIFY_RUNS: AtomicUsize = AtomicUsize::new(0);
+
+static CHILD_BUSY: AtomicUsize = AtomicUsize::new(0);
+static CHILD_BROKEN: AtomicUsize = AtomicUsize::new(0);
+
+/// Bound on concurrently running scenario children (each has up to 16 threads).
+static SLOTS: (Mutex<usize>, Condvar) = (Mutex::new(0), Condvar::new());
+
+struct Slot;
+impl Slot {
+    fn take(max: usize) -> Slot {
+        let mut g = SLOTS.0.lock().unwrap();
+        while *g >= max {
+            g = SLOTS.1.wait(g).unwrap();
+        }
+        *g += 1;
+        Slot
+    }
+}
+impl Drop for Slot {
+    fn drop(&mut self) {
+        *SLOTS.0.lock().unwrap() -= 1;
+        SLOTS.1.notify_one();
+    }
+}
+
+fn conc_valid(c: &ConcCase) -> bool {
+    c.ids >= 1
+        && c.ids <= 4096
+        && c.cap <= 1 << 16
+        && !c.threads.is_empty()
+        && c.threads.len() <= 64
+        && c.threads.iter().all(|t| t.len() <= 1000 && t.iter().all(|o| o.a < c.ids && o.b < c.ids))
+}
+
+impl Stage for ConcStage {
+    type Input = ConcCase;
+    fn name(&self) -> &'static str {
+        "concurrent"
+    }
+    fn decode(&self, src: &mut Src) -> ConcCase {
+        let tiny = src.chance(1, 3);
+        let (cap, ids, nt, maxops);
+        if tiny {
+            cap = *src.pick(&[0u32, 1, 2, 4]);
+            ids = 2 + src.below(5) as u32;
+            nt = 2 + src.below(3);
+            maxops = 4;
+        } else {
+            cap = *src.pick(&[1u32, 0, 2, 4, 8, 16, 32]);
+            let mult = *src.pick(&[8u32, 4, 2, 1]);
+            ids = (cap.max(1) * mult).max(3) + src.below(3) as u32;
+            nt = *src.pick(&[2usize, 3, 4, 4, 6, 8, 12, 16]);
+            maxops = 40;
+        }
+        let nops = 1 + src.below(maxops);
+        // 0: ids uniform; 1: the id bound grows with the op index (one resize after the other while
+        // the threads run); 2: the second argument of unions comes from a window that moves DOWN with the op
+        // index, so class roots keep being displaced by smaller ids during the whole run
+        let mode = src.below(4);
+        if mode == 3 && !tiny && ids >= 4 {
+            // "displacement" template: thread 0 joins two high ids and then keeps asking about them while
+            // every other thread links one of them to ever smaller ids, so that the root of their class is
+            // displaced again and again during the queries (exercises the re-check loop of same_set and the
+            // retry loop of merge)
+            let h1 = ids - 1 - src.below(ids as usize / 4 + 1) as u32;
+            let mut h2 = ids - 1 - src.below(ids as usize / 2 + 1) as u32;
+            if h2 == h1 {
+                h2 = h1 - 1;
+            }
+            let nops = nops.max(4);
+            let mut threads = vec![];
+            let mut obs = vec![COp { k: CK::Union, a: h1, b: h2, pause: 0 }];
+            for i in 1..nops {
+                let (a, b) = if i % 2 == 0 { (h1, h2) } else { (h2, h1) };
+                let k = if src.chance(1, 4) { CK::Find } else { CK::SameSet };
+                obs.push(COp { k, a, b: if k == CK::Find { 0 } else { b }, pause: 0 });
+            }
+            threads.push(obs);
+            for t in 1..nt {
+                let mut ops = vec![];
+                let lead = *src.pick(&[0u8, 0, 12, 30, 60, 120]);
+                for i in 0..nops {
+                    let z = (ids as usize * (nops - 1 - i) / nops + (t + src.below(3)) % (ids as usize / nops + 1)).min(ids as usize - 1) as u32;
+                    let h = if src.bool() { h1 } else { h2 };
+                    let k = if src.chance(1, 6) { CK::Find } else { CK::Union };
+                    ops.push(COp { k, a: h, b: if k == CK::Find { 0 } else { z }, pause: if i == 0 { lead } else { 0 } });
+                }
+                threads.push(ops);
+            }
+            return ConcCase { cap, ids, threads };
+        }
+        let nhot = 2 + src.below(3);
+        let hot: Vec<u32> = (0..nhot).map(|_| src.below(ids as usize) as u32).collect();
+        let n_ids = ids as usize;
+        let mut threads = vec![];
+        for _ in 0..nt {
+            // per thread: mixed / union-heavy / query-only observer / same_set-heavy
+            let weights = *src.pick(&[[4usize, 3, 2], [7, 1, 1], [0, 3, 3], [2, 1, 5]]);
+            let mut ops = vec![];
+            for i in 0..nops {
+                if i > 0 && src.exhausted() {
+                    break;
+                }
+                let k = [CK::Union, CK::Find, CK::SameSet][src.pick_weighted(&weights)];
+                let bound = if mode == 1 { ((n_ids * (i + 1)) / nops).clamp(2, n_ids) } else { n_ids };
+                let pick_id = |src: &mut Src| -> u32 {
+                    if src.chance(1, 2) { hot[src.below(hot.len())] } else { src.below(bound) as u32 }
+                };
+                let a = pick_id(src);
+                let b = if k == CK::Find {
+                    0
+                } else if mode == 2 && k == CK::Union && src.chance(3, 4) {
+                    let lo = n_ids * (nops - 1 - i) / nops;
+                    let width = (n_ids / nops + 1).min(n_ids - lo);
+                    (lo + src.below(width)) as u32
+                } else {
+                    pick_id(src)
+                };
+                // mostly none; spins are cheap, yields are rare (a yield costs milliseconds on a loaded machine)
+                let pause = *src.pick(&[0u8, 0, 0, 0, 0, 0, 0, 0, 0, 0, 0, 12, 30, 60, 1, 2]);
+                ops.push(COp { k, a, b, pause });
+            }
+            threads.push(ops);
+        }
+        ConcCase { cap, ids, threads }
+    }
+    fn render(&self, c: &ConcCase) -> J {
+        json!({
+            "initial_capacity": c.cap,
+            "ids_below": c.ids,
+            "threads": c.threads.iter().map(|t| t.iter().map(|o| if o.pause > 0 { format!("pause{} {}", o.pause, o.show()) } else { o.show() }).collect::<Vec<_>>().join("; ")).collect::<Vec<_>>(),
+        })
+    }
+    fn simplify(&self, c: &ConcCase) -> Vec<ConcCase> {
+        TL_SIMPLIFY.with(|f| f.set(true));
+        let mut out = vec![];
+        if c.threads.len() > 2 {
+            for t in 0..c.threads.len() {
+                let mut d = c.clone();
+                d.threads.remove(t);
+                out.push(d);
+            }
+        }
+        for t in 0..c.threads.len() {
+            if c.threads[t].len() > 1 {
+                let mut d = c.clone();
+                let l = d.threads[t].len();
+                d.threads[t].truncate(l / 2);
+                out.push(d);
+                let mut d = c.clone();
+                d.threads[t].pop();
+                out.push(d);
+            }
+        }
+        out.truncate(24);
+        out
+    }
+    fn check(&self, c: &ConcCase) -> Outcome {
+        let text = serde_json::to_string(c).unwrap_or_default();
+        let mut out = Outcome::new(fnv_str(&text));
+        if !conc_valid(c) {
+            out.class("invalid-input");
+            return out;
+        }
+        // static facts about the scenario (pure functions of the input)
+        let n = c.ids as usize + 1;
+        let mut fin = Dsu::new(n);
+        let mut beyond = 0u64;
+        let mut total = 0u64;
+        for t in &c.threads {
+            for o in t {
+                total += 1;
+                if o.k == CK::Union {
+                    fin.union(o.a, o.b);
+                }
+                if o.a >= c.cap || (o.k != CK::Find && o.b >= c.cap) {
+                    beyond += 1;
+                }
+            }
+        }
+        let mut touched: BTreeMap<u32, (std::collections::BTreeSet<usize>, bool)> = BTreeMap::new();
+        for (ti, t) in c.threads.iter().enumerate() {
+            for o in t {
+                let ids: &[u32] = if o.k == CK::Find { &[o.a] } else { &[o.a, o.b] };
+                for x in ids {
+                    let e = touched.entry(fin.find(*x)).or_default();
+                    e.0.insert(ti);
+                    e.1 |= o.k == CK::Union && o.a != o.b;
+                }
+            }
+        }
+        let shared = touched.values().filter(|(ts, u)| ts.len() >= 2 && *u).count();
+        out.nontrivial = beyond > 0 && shared > 0;
+        out.class(format!("threads={}", match c.threads.len() { 2 => "2", 3..=4 => "3-4", 5..=8 => "5-8", _ => "9-16" }));
+        out.class(format!("cap={}", c.cap));
+        out.class(if total <= 16 { "ops<=16(complete-linearizability-search)" } else if total <= 100 { "ops<=100" } else { "ops>100" });
+        out.class(if beyond > 0 { "resizes" } else { "no-resize" });
+        out.class(if shared > 0 { "class-shared-by->=2-threads" } else { "no-shared-class" });
+        if let Some(v) = MEMO.lock().unwrap().get(&out.key) {
+            out.fail(v.sig.clone(), v.detail.clone());
+            return out;
+        }
+        // After a failure on this thread proptest shrinks the byte string by re-running `check` thousands of
+        // times. The failure depends on the OS schedule, every run costs a process, and a smaller byte string is
+        // a different scenario anyway: byte-level shrinking is skipped (candidates are not executed, the failing
+        // scenario itself stays failing through MEMO); the structural pass (`simplify`) re-runs a bounded number
+        // of smaller scenarios with more repetitions.
+        let simplifying = TL_SIMPLIFY.with(|f| f.get());
+        if TL_FAILED.with(|f| f.get()) && !simplifying {
+            out.class("skipped-while-shrinking");
+            return out;
+        }
+        // the same number of thread-runs for every scenario: many-thread scenarios are repeated less often
+        let mut reps = (self.reps * 4 / c.threads.len().max(4)).max(3);
+        if simplifying {
+            if SIMPLIFY_RUNS.fetch_add(1, Ordering::SeqCst) >= 60 {
+                return out;
+            }
+            reps *= 5;
+        }
+        let max_children = (std::thread::available_parallelism().map(|n| n.get()).unwrap_or(8) / 4).max(1);
+        let res = {
+            let _slot = Slot::take(max_children);
+            let t = std::time::Instant::now();
+            let r = run_child(ChildJob { kind: "c17-concurrent", payload: json!({"case": c, "reps": reps}), env: vec![], timeout: self.timeout, cwd: None });
+            let ms = t.elapsed().as_millis() as u64;
+            out.count("child_wall_ms", ms);
+            if ms >= 1000 {
+                out.class("child-took>=1s");
+            }
+            r
+        };
+        let mut fail: Option<Violation> = None;
+        match res {
+            ChildResult::Ok(j) => {
+                if j.get("error").is_some() {
+                    out.class("child-error");
+                    out.count("child_errors", 1);
+                    return out;
+                }
+                for k in ["runs", "ops", "overlapping_pairs", "conflicting_pairs", "displaced_parent", "wg_histories", "wg_states", "runs_with_concurrent_resize"] {
+                    out.count(k, j["stats"][k].as_u64().unwrap_or(0));
+                }
+                if j["stats"]["conflicting_pairs"].as_u64().unwrap_or(0) > 0 {
+                    out.class("observed-overlapping-conflicting-ops");
+                }
+                if j["ok"].as_bool() != Some(true) {
+                    fail = Some(Violation::new(j["sig"].as_str().unwrap_or("concurrent-unknown").to_string(), j["detail"].as_str().unwrap_or("").to_string()));
+                }
+            }
+            ChildResult::Quiescent { stderr } => {
+                fail = Some(Violation::new(
+                    "concurrent-deadlock",
+                    format!("the scenario did not finish within {}s and every thread of the process was asleep without CPU progress (deadlock suspect); stderr tail:\n{stderr}", self.timeout.as_secs()),
+                ));
+            }
+            ChildResult::Crashed { status, stderr } => {
+                fail = Some(Violation::new(format!("concurrent-crash:{}", crash_key(&status, &stderr)), format!("the process running the scenario died ({status}); stderr tail:\n{stderr}")));
+            }
+            ChildResult::Busy => {
+                CHILD_BUSY.fetch_add(1, Ordering::SeqCst);
+                out.class("child-busy");
+                out.count("child_busy", 1);
+            }
+            ChildResult::Broken(m) => {
+                CHILD_BROKEN.fetch_add(1, Ordering::SeqCst);
+                out.class("child-broken");
+                out.count("child_broken", 1);
+                if std::env::var("VERIF_DEBUG").is_ok() {
+                    eprintln!("c17 child broken: {m}");
+                }
+            }
+        }
+        if let Some(v) = fail {
+            TL_FAILED.with(|f| f.set(true));
+            MEMO.lock().unwrap().insert(out.key, v.clone());
+            out.fail(v.sig, v.detail);
+        }
+        out
+    }
+}
+
+// ---------------------------------------------------------------------------
+// entry points
+// ---------------------------------------------------------------------------
+
+pub fn run(rep: &Report) {
+    rep.set_rule(
+        "seq-exhaustive: one case = one batch = a 0- or 2-operation prefix plus EVERY extension up to the stated length over the full operation alphabet on <= 6 ids \
+         (sequential UnionFind: union/find/find_naive/reserve/reset; concurrent UnionFind used single-threaded with several initial capacities: union/find/same_set/reset); \
+         counters seq-exhaustive:sequences / nontrivial_sequences give the number of sequences, every one checked after every operation against a min-label partition model \
+         (returned values, find_naive and find of every id, find on a clone then find_naive again). \
+         seq-random: proptest byte strings decoded into sequences of <= 2000 operations over <= 64 ids, same oracle after every operation. \
+         A sequential case is non-trivial when it has >= 1 union that merged two classes and >= 1 find/find_naive/same_set after it; distinct = distinct (structure, ids, capacity, sequence). \
+         concurrent: proptest byte strings decoded into a scenario (initial capacity 0..32, id space up to 8x capacity, 2..16 threads with fixed lists of union/find/same_set and scenario-decided yields/spins; \
+         shapes: tiny (<= 4 threads x <= 4 ops), uniform, growing id bound, descending union partners, root-displacement template); \
+         each scenario is executed `runs` times in a child process with every operation stamped from one shared counter; oracles: final partition = closure of all unions with min-id representatives, \
+         sound necessary conditions of linearizability on the stamped history, complete Wing-Gong search for histories of <= 16 operations. \
+         A scenario is non-trivial when some operation uses an id >= the initial capacity (forces a resize while other threads run) and some final class containing a real union is touched by >= 2 threads; \
+         distinct = distinct scenario; the OS schedule is the sampled part (counters concurrent:runs, overlapping_pairs, conflicting_pairs measure it).",
+    );
+    rep.assume("stamps: an operation A precedes B in real time iff A's response stamp < B's invocation stamp (one SeqCst counter, fetch_add immediately before the call and after the return)");
+    rep.assume("concurrent union: only the returned child is required to be exact; the returned parent may have been displaced by a concurrent link (it must still be a smaller id that was a root of the other argument's class during the call)");
+    rep.assume("no reset() runs concurrently with other operations (the quantifier names unions, finds, same_set and growth only); reset and deep_copy are checked after the threads joined");
+
+    // VERIF_C17_ONLY=<stage name> restricts the run to one stage (sensitivity measurements, debugging);
+    // such a run is marked in the evidence.
+    let only = std::env::var("VERIF_C17_ONLY").ok().filter(|s| !s.is_empty());
+    let want = |name: &str| only.as_deref().is_none_or(|o| o == name);
+    if let Some(o) = &only {
+        rep.note(format!("PARTIAL RUN: VERIF_C17_ONLY={o}"));
+    }
+    let mut walls = serde_json::Map::new();
+    let random = SeqStage { name: "seq-random" };
+    let conc = ConcStage { reps: rep.tier.pick(16, 40), timeout: Duration::from_secs(60) };
+
+    // golden cases first (smoke test of each stage; they also become the evidence samples)
+    if only.is_none() {
+        rep.run_one(
+            &random,
+            &SeqCase {
+                target: Target::Seq,
+                n: 4,
+                cap: 0,
+                ops: vec![Op::Union(2, 3), Op::Union(1, 2), Op::Union(0, 1), Op::FindNaive(3), Op::Find(3), Op::Reserve(3), Op::Union(0, 3), Op::Union(2, 2), Op::Reset, Op::Find(3), Op::Union(3, 1)],
+                extend: 0,
+            },
+        );
+        rep.run_one(
+            &random,
+            &SeqCase {
+                target: Target::Conc,
+                n: 6,
+                cap: 1,
+                ops: vec![Op::Union(4, 5), Op::Union(3, 4), Op::Union(2, 3), Op::SameSet(5, 2), Op::Find(5), Op::SameSet(4, 1), Op::Union(1, 1), Op::Union(5, 2), Op::Reset, Op::Find(5), Op::Union(5, 0)],
+                extend: 0,
+            },
+        );
+        let o = |k, a, b, pause| COp { k, a, b, pause };
+        rep.run_one(
+            &conc,
+            &ConcCase {
+                cap: 1,
+                ids: 8,
+                threads: vec![
+                    vec![o(CK::Union, 7, 3, 0), o(CK::Find, 7, 0, 0), o(CK::SameSet, 3, 7, 1)],
+                    vec![o(CK::Union, 7, 5, 0), o(CK::Find, 5, 0, 12)],
+                    vec![o(CK::Union, 5, 3, 0), o(CK::SameSet, 7, 5, 0), o(CK::Find, 7, 0, 0)],
+                ],
+            },
+        );
+    }
+    let mut timed = |name: &str, f: &dyn Fn()| {
+        if want(name) && !rep.stopped() {
+            let t = std::time::Instant::now();
+            f();
+            walls.insert(name.to_string(), json!((t.elapsed().as_secs_f64() * 10.0).round() / 10.0));
+        }
+    };
+    timed("seq-exhaustive", &|| run_seq_exhaustive(rep));
+    timed("seq-random", &|| {
+        rep.run_regressions(&random);
+        rep.explore(&random, rep.tier.pick(6_000, 200_000), 6_200);
+    });
+    timed("concurrent", &|| {
+        rep.run_regressions(&conc);
+        rep.explore(&conc, rep.tier.pick(500, 12_000), 2_400);
+    });
+    rep.extra("stage_wall_s", J::Object(walls));
+    let (busy, broken) = (CHILD_BUSY.load(Ordering::SeqCst), CHILD_BROKEN.load(Ordering::SeqCst));
+    if busy > 0 {
+        rep.inconclusive(format!("concurrent: {busy} scenario child(ren) were still computing after the watchdog timeout (livelock suspect or machine too slow)"));
+    }
+    if broken > 0 {
+        rep.inconclusive(format!("concurrent: {broken} scenario child(ren) could not be started or broke the protocol"));
+    }
+}
+
+pub fn replay(rep: &Report, stage: &str, j: &J) -> i32 {
+    match stage {
+        "seq-exhaustive" => crate::registry::replay_stage(rep, &SeqStage { name: "seq-exhaustive" }, j),
+        "seq-random" => crate::registry::replay_stage(rep, &SeqStage { name: "seq-random" }, j),
+        "concurrent" => crate::registry::replay_stage(rep, &ConcStage { reps: 300, timeout: Duration::from_secs(120) }, j),
+        _ => 2,
+    }
+}
+
+pub fn child(kind: &str, payload: &J) -> Option<J> {
+    match kind {
+        "c17-seqexh" => Some(child_seqexh(payload)),
+        "c17-concurrent" => Some(child_concurrent(payload)),
+        _ => None,
+    }
 }
